@@ -68,7 +68,7 @@ class Justifications:
             if fn.cls is not None and fn.cls.name == 'PortsSemanticsCfg' and \
                     self._port_loop_over_expected(fn, self._call_with_port(ob.node)):
                 return self._assume(A1) + ' (loop variable over the expected port names)'
-        # --- inside get_single_instance: every result shape was interpreted (E6) -----------------------------------------------
+        # --- inside get_single_instance: every result shape was interpreted (E7) -----------------------------------------------
         if fn.qualname == 'FindResult.get_single_instance' and ob.kind in ('unpack', 'index', 'subscript') :
             if '_gsi_foreign_exceptions' not in self.ctx.__dict__:
                 single_instance_gate(self.ctx)
